@@ -495,3 +495,166 @@ Proof.
   change (w_if_counter (cv_program_end wstate bytes batch_conv s)) with (w_if_counter s) in Hk.
   rewrite cnt_app, cnt_concat_rev, <- cnt_app. exact (inv_if_fresh s Is k Hk).
 Qed.
+
+(* ---- the rest of the script (start lines, helper routines, end lines) defines no family label ---- *)
+Definition frame (s s' : wstate) : Prop :=
+  w_helper s' = w_helper s /\ w_end s' = w_end s /\ (forallb no_fam_label (w_start s) = true -> forallb no_fam_label (w_start s') = true).
+
+Lemma frame_refl s : frame s s. Proof. repeat split; auto. Qed.
+Lemma frame_trans a b c : frame a b -> frame b c -> frame a c.
+Proof. intros [A1 [A2 A3]] [B1 [B2 B3]]. repeat split; [congruence|congruence|auto]. Qed.
+Lemma frame_same s s' : w_start s' = w_start s -> w_helper s' = w_helper s -> w_end s' = w_end s -> frame s s'.
+Proof. intros A B C. repeat split; [exact B|exact C|rewrite A; auto]. Qed.
+Lemma f_add s0 b s : frame s0 s -> frame s0 (w_add b s).
+Proof. intro H. eapply frame_trans; [exact H|]. unfold w_add. destruct (rev (w_funcs s)); apply frame_same; reflexivity. Qed.
+Lemma f_adds s0 ls : forall s, frame s0 s -> frame s0 (w_adds ls s).
+Proof. unfold w_adds. induction ls as [|b r IH]; intros s H; [exact H|]. cbn [fold_left]. apply IH. apply f_add. exact H. Qed.
+Lemma f_set s0 f s : frame s0 s -> frame s0 (w_set f s).
+Proof. intro H. eapply frame_trans; [exact H|apply frame_same; reflexivity]. Qed.
+Lemma f_counters s0 s a b c : frame s0 s -> frame s0 (w_with_counters s a b c).
+Proof. intro H. eapply frame_trans; [exact H|apply frame_same; reflexivity]. Qed.
+Lemma f_stacks s0 s a b c d e : frame s0 s -> frame s0 (w_with_stacks s a b c d e).
+Proof. intro H. eapply frame_trans; [exact H|apply frame_same; reflexivity]. Qed.
+Lemma f_lf s0 s : frame s0 s -> frame s0 (w_add_lf s).
+Proof.
+  intro H. eapply frame_trans; [exact H|]. unfold w_add_lf. destruct (w_lf s); [apply frame_refl|].
+  repeat split. cbn [w_start]. intro Hs. rewrite forallb_app, Hs. reflexivity.
+Qed.
+Lemma f_fold {X} (mk : wstate -> nat -> X -> bline) (args : list X) : forall s0 s i, frame s0 s ->
+  frame s0 (fst (fold_left (fun (acc : wstate * nat) a => let '(st, j) := acc in (w_add (mk st j a) st, S j)) args (s, i))).
+Proof. induction args as [|a r IH]; intros s0 s i H; [exact H|]. cbn [fold_left]. apply IH. apply f_add. exact H. Qed.
+Lemma f_call s0 n g a s : frame s0 s -> frame s0 (w_call n g a s).
+Proof. intro H. unfold w_call. apply f_add. apply (f_fold (fun st i x => w_assign st (fa_name i) x true)). exact H. Qed.
+Lemma f_echo s0 t s : frame s0 s -> frame s0 (w_echo t s).
+Proof. intro H. unfold w_echo. apply f_call. apply f_set. exact H. Qed.
+
+Ltac frame_tac :=
+  repeat first [ apply frame_refl | apply f_add | apply f_adds | apply f_call | apply f_echo | apply f_set | apply f_lf | apply f_counters | apply f_stacks
+               | apply (f_fold (X:=bytes)) ].
+
+Lemma f_rets_fold (rets : list vtype) : forall s0 (vs : list bytes) (s : wstate) (i : nat), frame s0 s ->
+  frame s0 (snd (fst (fold_left (fun (acc : list bytes * wstate * nat) (_ : vtype) =>
+                                   let '(vs, st, i) := acc in
+                                   let '(h, st1) := w_next_helper st in
+                                   (vs ++ [w_eval st1 h false], w_add (w_assign st1 h (bang (rv_name_w i)) false) st1, S i)) rets (vs, s, i)))).
+Proof.
+  induction rets as [|r rs IH]; intros s0 vs s i H; [exact H|].
+  cbn [fold_left]. cbn [w_next_helper]. apply IH. frame_tac. exact H.
+Qed.
+
+Definition Clean (s : wstate) : Prop := forallb no_fam_label (w_start s) = true /\ w_helper s = [] /\ w_end s = [].
+
+Lemma Clean_frame s s' : frame s s' -> Clean s -> Clean s'.
+Proof. intros [A [B C]] [X [Y Z]]. repeat split; [auto|congruence|congruence]. Qed.
+
+Lemma names_all_true l : Forall (fun st => names_ok (fun _ => true) st = true) l -> names_ok_all (fun _ => true) l = true.
+Proof. induction l as [|x r IH]; intro H; [reflexivity|]. inversion H as [|y l2 Hx Hr]; subst. cbn [names_ok_all]. rewrite Hx. exact (IH Hr). Qed.
+
+Lemma names_ok_true : forall st, names_ok (fun _ => true) st = true.
+Proof.
+  induction st using AstInd.stmt_ind'; try reflexivity.
+  - cbn [names_ok]. rewrite names_all_eq. cbn [andb]. apply names_all_true. exact H.
+  - cbn [names_ok]. rewrite names_all_eq. apply andb_true_iff. split; [|apply names_all_true; exact H0].
+    induction brs as [|[c b] r IHr]; [reflexivity|]. inversion H as [|y l Hx Hr]; subst. cbn [snd] in *.
+    rewrite names_all_eq. apply andb_true_iff. split; [apply names_all_true; exact Hx|exact (IHr Hr)].
+  - cbn [names_ok]. rewrite names_all_eq. apply andb_true_iff. split; [apply andb_true_iff; split|apply names_all_true; exact H1].
+    + destruct i; [exact H|reflexivity].
+    + destruct n; [exact H0|reflexivity].
+Qed.
+
+Theorem batch_clean_stmt : forall st s u s', Clean s -> t_stmt batch_conv st s = TOk u s' -> Clean s'.
+Proof.
+  intros st s u s' I H.
+  pose proof (names_ok_true st) as Hn.
+  refine (t_stmt_preserves batch_conv Clean (fun _ => true) _ _ _ _ _ _ _ _ _ _ _ _ _ _ _ _ _ _ _ _ _ _ _ _ _ _ _ _ _ _ _ _ _ _ _ _ st Hn s u s' I H);
+    clear; cbn [batch_conv cv_string cv_var_definition cv_slice_assignment cv_func_start cv_func_end cv_return cv_if_start cv_if_end
+                cv_elseif_start cv_else_start cv_for_start cv_for_incr_start cv_for_incr_end cv_for_condition cv_for_end cv_break cv_continue
+                cv_print cv_panic cv_write_file cv_nop cv_unary cv_binary cv_comparison cv_logical cv_slice_instantiation cv_slice_evaluation
+                cv_slice_len cv_string_subscript cv_string_len cv_func_call cv_app_call cv_input cv_copy cv_exists cv_read_file].
+  - intros b s I. cbn [snd]. apply (Clean_frame s); [frame_tac|exact I].
+  - intros n v g s I. apply (Clean_frame s); [frame_tac|exact I].
+  - intros n i v d g s I. apply (Clean_frame s); [frame_tac|exact I].
+  - intros n ps rs s _ I. apply (Clean_frame s); [frame_tac|exact I].
+  - intros s u s' I H. destruct (rev (w_funcs s)) as [|name r]; [discriminate|]. inversion H; subst s'; clear H. apply (Clean_frame s); [frame_tac|exact I].
+  - intros vs s u s' I H. destruct (rev (w_funcs s)) as [|name r]; [discriminate|]. inversion H; subst s'; clear H. apply (Clean_frame s); [frame_tac|exact I].
+  - intros c s I. apply (Clean_frame s); [frame_tac|exact I].
+  - intros s u s' I H. destruct (rev (w_ifs s)) as [|label r]; [discriminate|]. inversion H; subst s'; clear H. apply (Clean_frame s); [frame_tac|exact I].
+  - intros c s u s' I H. destruct (rev (w_ifs s)) as [|label r]; [discriminate|]. inversion H; subst s'; clear H. apply (Clean_frame s); [frame_tac|exact I].
+  - intros s u s' I H. destruct (rev (w_ifs s)) as [|label r]; [discriminate|]. inversion H; subst s'; clear H. apply (Clean_frame s); [frame_tac|exact I].
+  - intros s I. apply (Clean_frame s); [frame_tac|exact I].
+  - intros s u s' I H. inversion H; subst s'; clear H. apply (Clean_frame s); [frame_tac|exact I].
+  - intros s u s' I H. inversion H; subst s'; clear H. apply (Clean_frame s); [frame_tac|exact I].
+  - intros c s I. apply (Clean_frame s); [frame_tac|exact I].
+  - intros s u s' I H. destruct (rev (w_fors s)) as [|label fr]; [discriminate|]. destruct (rev (w_end_labels s)) as [|el r]; [discriminate|].
+    inversion H; subst s'; clear H. apply (Clean_frame s); [frame_tac|exact I].
+  - intros s u s' I H. destruct (rev (w_end_labels s)) as [|el r]; [discriminate|]. inversion H; subst s'; clear H. apply (Clean_frame s); [frame_tac|exact I].
+  - intros s u s' I H. destruct (rev (w_fors s)) as [|l r]; [discriminate|]. inversion H; subst s'; clear H. apply (Clean_frame s); [frame_tac|exact I].
+  - intros vs s I. apply (Clean_frame s); [frame_tac|exact I].
+  - intros v s I. apply (Clean_frame s); [frame_tac|exact I].
+  - intros p d a s I. apply (Clean_frame s); [frame_tac|exact I].
+  - intros s I. apply (Clean_frame s); [frame_tac|exact I].
+  - intros v s I. cbn [w_next_helper snd]. apply (Clean_frame s); [frame_tac|exact I].
+  - intros l op r t s v s' I H. cbn [w_next_helper] in H. destruct (is_slice t); [discriminate|].
+    destruct (dt t); try discriminate.
+    + inversion H; subst s'; clear H. apply (Clean_frame s); [frame_tac|exact I].
+    + destruct op; try discriminate. inversion H; subst s'; clear H. apply (Clean_frame s); [frame_tac|exact I].
+  - intros l op r t s v s' I H. destruct (wcmp_text t op) as [[o qd]|]; [|discriminate].
+    cbn [w_next_helper] in H. inversion H; subst s'; clear H. apply (Clean_frame s); [frame_tac|exact I].
+  - intros l op r s I. cbn [w_next_helper snd]. apply (Clean_frame s); [frame_tac|exact I].
+  - intros vs s I. cbn [w_next_helper snd]. apply (Clean_frame s); [frame_tac|exact I].
+  - intros a b s I. cbn [w_next_helper snd]. apply (Clean_frame s); [frame_tac|exact I].
+  - intros a s I. cbn [w_next_helper snd]. apply (Clean_frame s); [frame_tac|exact I].
+  - intros a b c s I. cbn [w_next_helper snd]. apply (Clean_frame s); [frame_tac|exact I].
+  - intros a s I. cbn [w_next_helper snd]. apply (Clean_frame s); [frame_tac|exact I].
+  - intros n vs rs u s I. apply (Clean_frame s); [|exact I]. destruct u; cbn [snd]; [|frame_tac].
+    pose proof (f_rets_fold rs s [] (w_call n vs [] s) 0%nat ltac:(frame_tac)) as Q.
+    destruct (fold_left _ rs ([], w_call n vs [] s, 0%nat)) as [[vals s2] k] eqn:Ef. cbn [fst snd] in *. exact Q.
+  - intros cs u s I. destruct u; cbn [w_next_helper snd]; apply (Clean_frame s); try exact I; frame_tac.
+  - intros p b s I. cbn [w_next_helper snd]. apply (Clean_frame s); [frame_tac|exact I].
+  - intros n v g s I. cbn [snd]. apply (Clean_frame s); [frame_tac|exact I].
+  - intros p s I. cbn [w_next_helper snd]. apply (Clean_frame s); [frame_tac|exact I].
+  - intros p s I. cbn [w_next_helper snd]. apply (Clean_frame s); [frame_tac|exact I].
+Qed.
+
+Lemma cnt_no_fam_list c k ls : fam c -> forallb no_fam_label ls = true -> cnt (lab c k) ls = 0%nat.
+Proof.
+  intros Hc. induction ls as [|b r IH]; intro H; [reflexivity|]. simpl in H. apply andb_true_iff in H as [Hb Hr].
+  change (b :: r) with ([b] ++ r). rewrite cnt_app, (cnt_no_fam c k b Hc Hb), (IH Hr). reflexivity.
+Qed.
+
+Lemma helpers_no_fam s : forallb no_fam_label (helpers_of s) = true.
+Proof.
+  unfold helpers_of. cbv zeta. repeat rewrite forallb_app.
+  repeat (apply andb_true_iff; split);
+    match goal with |- forallb _ (if ?c then _ else _) = true => destruct c; reflexivity end.
+Qed.
+
+Lemma batch_clean_body : forall body s u s', Clean s ->
+  (fix go (b : list stmt) : M (St:=wstate) unit :=
+     match b with [] => mret tt | x :: r => mbind (t_stmt batch_conv x) (fun _ => go r) end) body s = TOk u s' -> Clean s'.
+Proof.
+  induction body as [|x r IH]; intros s u s' I H.
+  - inversion H; subst. exact I.
+  - unfold mbind in H. destruct (t_stmt batch_conv x s) as [u1 s1| |] eqn:E; try discriminate.
+    exact (IH s1 u s' (batch_clean_stmt x s u1 s1 I E) H).
+Qed.
+
+(* The whole emitted script: every label of the three families is defined at most once. *)
+Theorem batch_script_family_labels_unique body script st :
+  emit_batch body = TOk script st -> names_ok_all plain_name body = true ->
+  forall c k, fam c -> (cnt (lab c k) (batch_lines st) <= 1)%nat.
+Proof.
+  intros H Hn c k Hc. pose proof (batch_family_labels_unique body script st H Hn c k Hc) as Hcode.
+  unfold emit_batch, transpile_program in H.
+  destruct ((fix go (b : list stmt) : M (St:=wstate) unit :=
+               match b with [] => mret tt | s :: r => mbind (t_stmt batch_conv s) (fun _ => go r) end) body
+            (cv_program_start wstate bytes batch_conv w_init)) as [u s| |] eqn:E; try discriminate.
+  inversion H; subst st script; clear H.
+  assert (Clean (cv_program_start wstate bytes batch_conv w_init)) as C0 by (repeat split; reflexivity).
+  destruct (batch_clean_body body _ u s C0 E) as [Cs [Ch Ce]].
+  unfold batch_lines. cbn [batch_conv cv_program_end w_start w_helper w_funcs_code w_global w_end] in *.
+  rewrite Ch, Ce. cbn [app]. rewrite !cnt_app.
+  rewrite (cnt_no_fam_list c k (w_start s) Hc Cs), (cnt_no_fam_list c k (helpers_of s) Hc (helpers_no_fam s)).
+  match goal with |- context [cnt (lab c k) (BLabel ?e :: ?r)] => rewrite (cnt_no_fam_list c k (BLabel e :: r) Hc eq_refl) end.
+  rewrite cnt_app in Hcode. lia.
+Qed.
